@@ -2,7 +2,9 @@ package main
 
 import (
 	"fmt"
+	"go/constant"
 	"go/token"
+	"go/types"
 	"strings"
 
 	"golang.org/x/tools/go/ssa"
@@ -382,6 +384,194 @@ func ruleFor(c *Ctx) *RuleResult {
 		r.broken("no store to the start register found in the advance branch (anchor moved?)")
 	}
 	r.count("advance_branch_counter_stores", nStores)
+
+	// advance: an unordered operand ends the loop. Every ordered comparison with a
+	// NaN is false, so a loop that only ends when some `<` holds never ends. The
+	// branch is walked twice — the new counter value is NaN; the limit is NaN — with
+	// every ordered comparison false and the NaN tests of that operand true: each
+	// walk must store nil to the hidden counter on every path.
+	isNaNTest := func(f *ssa.Function) bool {
+		if f == nil {
+			return false
+		}
+		if fullName(f) == "math.IsNaN" {
+			return true
+		}
+		if f.Blocks == nil || !p.InModule(f) {
+			return false
+		}
+		found := false
+		forEachInstr(f, func(ins ssa.Instruction) {
+			if bo, ok := ins.(*ssa.BinOp); ok && bo.Op == token.NEQ && bo.X == bo.Y {
+				found = true
+			}
+			if call, ok := ins.(*ssa.Call); ok {
+				if cal := call.Call.StaticCallee(); cal != nil && fullName(cal) == "math.IsNaN" {
+					found = true
+				}
+			}
+		})
+		return found
+	}
+	var addVals []ssa.Value
+	for b := range advR {
+		for _, ins := range b.Instrs {
+			if cl, ok := ins.(*ssa.Call); ok && calleeNamed(cl, "Add") {
+				addVals = append(addVals, cl)
+			}
+		}
+	}
+	derivesFromAdd := func(v ssa.Value) bool {
+		for w := range backSliceAllocs(v, false) {
+			for _, a := range addVals {
+				if w == a {
+					return true
+				}
+			}
+		}
+		return false
+	}
+	for _, scenario := range []string{"new-value", "limit"} {
+		operandIsNaN := func(v ssa.Value) bool {
+			if scenario == "new-value" {
+				return derivesFromAdd(v)
+			}
+			return !derivesFromAdd(v) && regSourceOf(v) == "GetB"
+		}
+		const (
+			unk = iota
+			yes
+			no
+		)
+		var eval func(v ssa.Value, pred map[*ssa.BasicBlock]*ssa.BasicBlock, depth int) int
+		eval = func(v ssa.Value, pred map[*ssa.BasicBlock]*ssa.BasicBlock, depth int) int {
+			if depth > 8 {
+				return unk
+			}
+			switch x := v.(type) {
+			case *ssa.Const:
+				if x.Value != nil && x.Value.Kind() == constant.Bool {
+					if constant.BoolVal(x.Value) {
+						return yes
+					}
+					return no
+				}
+			case *ssa.UnOp:
+				if x.Op == token.NOT {
+					switch eval(x.X, pred, depth+1) {
+					case yes:
+						return no
+					case no:
+						return yes
+					}
+				}
+			case *ssa.Phi:
+				pb := pred[x.Block()]
+				for i, pp := range x.Block().Preds {
+					if pp == pb {
+						return eval(x.Edges[i], pred, depth+1)
+					}
+				}
+			case *ssa.Extract:
+				if cl, ok := x.Tuple.(*ssa.Call); ok && x.Index == 0 && (calleeNamed(cl, "isLessThan") || calleeNamed(cl, "Lt") || calleeNamed(cl, "le")) {
+					return no
+				}
+			case *ssa.Call:
+				if calleeNamed(x, "numIsLessThan") {
+					return no
+				}
+				if isNaNTest(x.Call.StaticCallee()) && len(x.Call.Args) >= 1 {
+					if operandIsNaN(x.Call.Args[len(x.Call.Args)-1]) {
+						return yes
+					}
+					return no
+				}
+			case *ssa.BinOp:
+				switch x.Op {
+				case token.LSS, token.GTR, token.LEQ, token.GEQ:
+					if b, ok := x.X.Type().Underlying().(*types.Basic); ok && b.Info()&types.IsFloat != 0 {
+						return no
+					}
+				case token.NEQ:
+					if x.X == x.Y {
+						if operandIsNaN(x.X) {
+							return yes
+						}
+						return no
+					}
+				}
+			}
+			return unk
+		}
+		isNilValue := func(v ssa.Value) bool {
+			if u, ok := v.(*ssa.UnOp); ok && u.Op == token.MUL {
+				if g, ok := u.X.(*ssa.Global); ok && g.Name() == "NilValue" {
+					return true
+				}
+			}
+			return false
+		}
+		paths, badAt := 0, ""
+		var walk func(b *ssa.BasicBlock, pred map[*ssa.BasicBlock]*ssa.BasicBlock, steps int)
+		walk = func(b *ssa.BasicBlock, pred map[*ssa.BasicBlock]*ssa.BasicBlock, steps int) {
+			if steps > 64 || paths > 4096 || !advR[b] {
+				return
+			}
+			for _, ins := range b.Instrs {
+				if call, ok := ins.(*ssa.Call); ok && calleeNamed(call, "setReg") && len(call.Call.Args) >= 4 && call.Call.Args[2] == startReg {
+					paths++
+					v := call.Call.Args[3]
+					for i := 0; i < 4; i++ {
+						phi, ok := v.(*ssa.Phi)
+						if !ok {
+							break
+						}
+						pb := pred[phi.Block()]
+						for j, pp := range phi.Block().Preds {
+							if pp == pb {
+								v = phi.Edges[j]
+							}
+						}
+					}
+					if !isNilValue(v) && badAt == "" {
+						badAt = p.InstrPos(call)
+					}
+					return
+				}
+			}
+			next := func(to *ssa.BasicBlock) {
+				np := map[*ssa.BasicBlock]*ssa.BasicBlock{}
+				for k, v := range pred {
+					np[k] = v
+				}
+				np[to] = b
+				walk(to, np, steps+1)
+			}
+			switch last := b.Instrs[len(b.Instrs)-1].(type) {
+			case *ssa.If:
+				switch eval(last.Cond, pred, 0) {
+				case yes:
+					next(b.Succs[0])
+				case no:
+					next(b.Succs[1])
+				default:
+					next(b.Succs[0])
+					next(b.Succs[1])
+				}
+			case *ssa.Jump:
+				next(b.Succs[0])
+			}
+		}
+		walk(adv, map[*ssa.BasicBlock]*ssa.BasicBlock{adv: t7}, 0)
+		switch {
+		case paths == 0:
+			r.broken("advance branch: no path to a store of the hidden counter found when walking with a NaN " + scenario)
+		case badAt != "":
+			r.fail("for-advance-nan-never-ends:"+scenario, badAt, "in the advance branch of the numeric for, when the "+scenario+" is NaN every ordered comparison is false and no test of the operand against itself (x != x, math.IsNaN) steps in: the hidden counter is not set to nil, so `for i = 1, 0/0 do end` (or a NaN step) never ends, where the reference implementation runs the body at most once")
+		default:
+			r.ok(fmt.Sprintf("advance branch: with a NaN %s every path (%d) stores nil to the hidden counter", scenario, paths))
+		}
+	}
 	return r
 }
 
